@@ -99,3 +99,11 @@ reg("C25", "model_checking", "TLA+ design model Life model-checked with TLC (rep
     "every trace must satisfy the TLA+ monitor: at most one reconnect task, no frame after disconnect() returned, real transitions only, every callback once per change, CONNECTED only after an error-free ConnectResponse.",
     "Trusted: TLC, virtual-time loop (real asyncio scheduling order), simulated gateway. Secure tunnels are not driven (their lifecycle code is the shared _Tunnel).",
     "DESIGN.md section 5 C25")
+
+reg("C27", "model_checking", "TLA+ spec Routing model-checked with TLC (and its unserialised deviation refuted); trace validation of the real Routing class under virtual time",
+    "Routing (busy flow-control automaton, pacing, confirmations) is model-checked with three concurrent senders and busy frames at every tick "
+    "(no indication while pausing or within 20 ms of the previous one, a waiting sender transmits when permitted); the unserialised throttle must "
+    "yield a counterexample; the real Routing runs grid schedules of busy frames and concurrent send_cemi calls around cooldown, pacing and pause ends "
+    "plus random bursts, and every trace (busy frames, drawn random extensions, transmissions, confirmations, returns) must be a behaviour of the spec.",
+    "Trusted: TLC, the virtual-time loop, the fake multicast socket. The busy-frame counter and its decay follow KNX 03.08.05 2.3.5 as modelled in Routing.tla.",
+    "DESIGN.md section 5 C27")
